@@ -2945,7 +2945,7 @@ func (s *specPkt) snapshot() string {
 		l = []string{s.get("PacketID", "N0"), ls(s.ufilt), ls(s.ups)}
 	case 12, 13:
 	case 14:
-		l = []string{s.get("ReasonCode", "N0"), ls(s.ups)}
+		l = []string{s.get("ReasonCode", "N0"), s.get("SessionExpiryInterval", "N0"), s.get("ReasonString", "S-"), s.get("ServerReference", "S-"), ls(s.ups)}
 	case 15:
 		l = []string{s.get("ReasonCode", "N0"), s.get("ReasonString", "S-"), s.get("AuthMethod", "S-"), s.get("AuthData", "S-"), ls(s.ups)}
 	}
@@ -4218,8 +4218,8 @@ func oracleC03(r *report, g *G, n int, single string) {
 		r.fail("spec-generator-crashed", "modelrun gen03", fmt.Sprint(err))
 		return
 	}
-	fixed := []string{"V e00781051f00026869 N129;L[] selfcheck-ok disc-props", "V 40020001 N1;N0;S-;L[] selfcheck-ok -",
-		"V 4003000110 N1;N16;S-;L[] selfcheck-ok -", "V e000 N0;L[] selfcheck-ok -", "V e00181 N129;L[] selfcheck-ok -",
+	fixed := []string{"V e00781051f00026869 N129;N0;S6869;S-;L[] selfcheck-ok disc-props", "V 40020001 N1;N0;S-;L[] selfcheck-ok -",
+		"V 4003000110 N1;N16;S-;L[] selfcheck-ok -", "V e000 N0;N0;S-;S-;L[] selfcheck-ok -", "V e00181 N129;N0;S-;S-;L[] selfcheck-ok -",
 		"V f000 N0;S-;S-;S-;L[] selfcheck-ok -"}
 	for _, l := range append(fixed, out...) {
 		f := strings.Fields(l)
